@@ -74,6 +74,9 @@ TEMPLATES = [
     T('m_two', '«$QM1$»?«$QM2$»'),
     T('m_envbody', BS + 'begin{itemize}' + BS + 'item ?«$QM1$»?' + BS + 'end{itemize}'),
     T('m_group', '{?«' + BS + '[QM1' + BS + ']»}?'),
+    T('m_display_multi', '?«' + BS + '[QM1?QM2' + BS + ']»?'),
+    T('m_dd_multi', '«$$QM1?QM2$$»?'),
+    T('d_hspace', '?«' + BS + 'hspace{QD1}»?«' + BS + 'vspace*{QD2}»'),
     T('d_label', '?«' + BS + 'label{QD1}»?'),
     T('d_docclass', '«' + BS + 'documentclass[QD1]{QD2}»?'),
     T('d_usepkg', '?«' + BS + 'usepackage{QD1}»?'),
@@ -165,6 +168,34 @@ def body_filter(s, tname, skip_kept_comment=False):
     return True
 
 
+def body_legacy_fn(s, tname):
+    """the deprecated module-level latex2text() function with its keep_comments / keep_inline_math flags"""
+    import warnings
+    from pylatexenc import latex2text as L2T
+    name, clean, spans, imc = TDICT[tname]
+    for kc in (False, True):
+        for kim in (False, True):
+            try:
+                with warnings.catch_warnings():
+                    warnings.simplefilter('ignore')
+                    with StepBudget(len(s)):
+                        out = L2T.latex2text(s, keep_inline_math=kim, keep_comments=kc)
+            except BudgetExceeded:
+                fail('latex2text() did not terminate')
+            except Violation:
+                raise
+            except Exception as e:
+                fail('latex2text() raised %s' % type(e).__name__)
+            for kind, marker, a, b, d0, d1 in spans:
+                if kind == 'comment':
+                    require((marker in out) == kc, 'latex2text(): comment presence differs from keep_comments')
+                elif kind == 'math' and kim:
+                    require(s[a:b] in out, 'latex2text(keep_inline_math=True): formula source does not appear unchanged')
+                elif kind == 'math':
+                    require(marker in out, 'latex2text(): formula content does not appear')
+    return True
+
+
 def tpl_pre(clean):
     pre = ['len(s) == %d' % len(clean)]
     for i, ch in enumerate(clean):
@@ -184,13 +215,18 @@ def conditions(tier):
         conds.append(Cond('tpl_' + name, 's: str', tpl_pre(clean), 'body_filter(s, %r)' % name, timeout=T_, cost=2, twin=False,
                           smoke=[dict(s=clean.replace('?', c)) for c in ('x', ' ', '\n', '.')],
                           descr='template %r (? = any character that is not one of %s); 64 option sets' % (clean, ACTIVE)))
+    for name in ('c_top', 'm_inline', 'mix'):
+        clean = TDICT[name][1]
+        conds.append(Cond('legacyfn_' + name, 's: str', tpl_pre(clean), 'body_legacy_fn(s, %r)' % name, timeout=T_, twin=False,
+                          smoke=[dict(s=clean.replace('?', c)) for c in ('x', ' ')],
+                          descr='deprecated module-level latex2text() on template %r' % clean))
     return conds
 
 
 META = dict(
     functions=['LatexNodes2Text.latex_to_text/nodelist_to_text/comment_node_to_text/math_node_to_text/macro_node_to_text/'
                'environment_node_to_text/chars_node_to_text/do_fill_text/_fmt_indented_block', 'tolerant parser underneath'],
-    bounds=dict(quick='28 templates placing comment, formula and discarded-construct markers at top level, inside arguments, optional '
+    bounds=dict(quick='31 templates placing comment, formula and discarded-construct markers at top level, inside arguments, optional '
                       'arguments, between macro and argument, in environment bodies, groups, inside math, after bare macros and at end of '
                       'input without newline, each with 1-3 free holes ranging over every character that is not LaTeX-active; every '
                       'template rendered under all 4 math modes x keep_comments x 2 whitespace policies x fill_text on/off (64 option sets)',
